@@ -53,7 +53,7 @@ class C15(C06):
             n = rng.choice(["i1", "i2", "i3", "i11", "i21", "n1/1", "t" + hx("1.0"), "i0", "i5"])
             # custom values: plain, and ones stringified through the shared formatter memoizer by a Memoizable
             # that fails to construct for some tags (requested repeatedly, from all threads)
-            cval = rng.choice(["c" + hx("cv"), "m" + hx("ok1"), "m" + hx("bad1"), "m" + hx("bad2"), "m" + hx("ok2")])
+            cval = rng.choice(["c" + hx("cv"), "m" + hx("ok1"), "m" + hx("bad1"), "m" + hx("bad2"), "m" + hx("ok2"), "m" + hx("rc1"), "m" + hx("ro1")])
             dval = rng.choice(["m" + hx("bad1"), "m" + hx("ok1"), "c" + hx("d")])
             reqs.append("%s:~:%s=%s&%s=%s&%s=%s" % (hx(m), hx("n"), n, hx("c"), cval, hx("d"), dval))
         if rng.random() < 0.3:
